@@ -3,6 +3,7 @@
 import Gojq.Model.Optimize
 import Gojq.Model.OptVM
 import Gojq.Model.SafeVM
+import Gojq.Model.SafeVM2
 import Gojq.Model.TailVM
 import Driver.Common
 open Gojq.Opt
@@ -41,7 +42,9 @@ def runSafe (line : String) : String :=
   match toks.mapM Gojq.SafeVM.parseDump with
   | none => "?parse"
   | some is =>
-    if Gojq.SafeVM.safeCheckView is.toArray then "safe"
+    if Gojq.SafeVM.safeCheckView is.toArray then
+      (if Gojq.SafeVM.checkShapes2 (is.toArray.map Gojq.SafeVM.shapeV) then "safe"
+       else "not-safe2 pc=" ++ toString (Gojq.SafeVM.firstBad2 (is.toArray.map Gojq.SafeVM.shapeV)))
     else "not-safe pc=" ++ toString (Gojq.SafeVM.firstBad (is.toArray.map Gojq.SafeVM.shapeV) 0)
 
 /-- the dump with the `[id, index]` operand of the variable instructions kept (`TailVM.viewT`) -/
